@@ -29,6 +29,15 @@ CLAIMED = {
    "The reference was written from the doc comments after reading the code: it is a declarative restatement that index-arithmetic mutants cannot also satisfy, not an independent specification. "
    "Three states where the docs are silent are excluded and counted (evidence.rejected). `migrate set` only on linear histories.",
    "4/C11"),
+ "C08": ("exploration",
+   "grammar-based rapid PBT + byte mutations + native coverage-guided fuzzing (go test -fuzz) with a position/losslessness oracle inside the target",
+   "Inputs from a SQL token-soup grammar (quotes with both escape styles, E'' strings, three comment styles closed/unclosed, (un)balanced parens, dollar quotes, BEGIN[ ATOMIC]..END nesting, DELIMITER commands, atlas:delimiter header, invalid UTF-8), "
+   "byte-level mutations of them, the repository's lexer test files and hostile constants are scanned with the four option sets real callers use. Oracle: no panic; on success every Text is found at src[Pos:], positions increase without overlap, "
+   "and every byte between statements (and before the first / after the last) is accepted by the harness' own lexer as whitespace, comment, current delimiter, DELIMITER command or header directive — anything else is silently dropped SQL; collected comments precede their statement. "
+   "thorough adds 10 minutes of native fuzzing on all cores with the same oracle.",
+   "A clean scan error is always accepted. The gap lexer tracks the current delimiter by replaying DELIMITER commands itself; an unterminated comment in a gap is accepted leniently. "
+   "Option sets not used by community drivers (GO command, TRY/CATCH, BeginEndTerminator) are not exercised. Termination is enforced by the test timeout (reported as inconclusive, not a violation).",
+   "4/C08"),
 }
 PENDING_REASON = "check not built yet in this session (planned in DESIGN.md section 4; will be claimed once its quick check is green and sensitivity-tested)"
 
